@@ -77,6 +77,7 @@ Record sim := mkSim {
   worker : wstate;
   rep : option repl;
   created : list ev;
+  cancelled : list ev;
   trace : list (ev * Z);
   outs : list outcome;
   ntfs : list ntf;
@@ -84,22 +85,23 @@ Record sim := mkSim {
   flag : bool
 }.
 
-Definition set_clock (v : Z) (s : sim) : sim := mkSim v (pend s) (nid s) (rs s) (ps s) (bound s) (incl s) (strat s) (worker s) (rep s) (created s) (trace s) (outs s) (ntfs s) (obs s) (flag s).
-Definition set_pend (v : list ev) (s : sim) : sim := mkSim (clock s) v (nid s) (rs s) (ps s) (bound s) (incl s) (strat s) (worker s) (rep s) (created s) (trace s) (outs s) (ntfs s) (obs s) (flag s).
-Definition set_nid (v : Z) (s : sim) : sim := mkSim (clock s) (pend s) v (rs s) (ps s) (bound s) (incl s) (strat s) (worker s) (rep s) (created s) (trace s) (outs s) (ntfs s) (obs s) (flag s).
-Definition set_rs (v : runst) (s : sim) : sim := mkSim (clock s) (pend s) (nid s) v (ps s) (bound s) (incl s) (strat s) (worker s) (rep s) (created s) (trace s) (outs s) (ntfs s) (obs s) (flag s).
-Definition set_ps (v : replst) (s : sim) : sim := mkSim (clock s) (pend s) (nid s) (rs s) v (bound s) (incl s) (strat s) (worker s) (rep s) (created s) (trace s) (outs s) (ntfs s) (obs s) (flag s).
-Definition set_bound (v : Z) (s : sim) : sim := mkSim (clock s) (pend s) (nid s) (rs s) (ps s) v (incl s) (strat s) (worker s) (rep s) (created s) (trace s) (outs s) (ntfs s) (obs s) (flag s).
-Definition set_incl (v : bool) (s : sim) : sim := mkSim (clock s) (pend s) (nid s) (rs s) (ps s) (bound s) v (strat s) (worker s) (rep s) (created s) (trace s) (outs s) (ntfs s) (obs s) (flag s).
-Definition set_strat (v : strategy) (s : sim) : sim := mkSim (clock s) (pend s) (nid s) (rs s) (ps s) (bound s) (incl s) v (worker s) (rep s) (created s) (trace s) (outs s) (ntfs s) (obs s) (flag s).
-Definition set_worker (v : wstate) (s : sim) : sim := mkSim (clock s) (pend s) (nid s) (rs s) (ps s) (bound s) (incl s) (strat s) v (rep s) (created s) (trace s) (outs s) (ntfs s) (obs s) (flag s).
-Definition set_rep (v : option repl) (s : sim) : sim := mkSim (clock s) (pend s) (nid s) (rs s) (ps s) (bound s) (incl s) (strat s) (worker s) v (created s) (trace s) (outs s) (ntfs s) (obs s) (flag s).
-Definition set_created (v : list ev) (s : sim) : sim := mkSim (clock s) (pend s) (nid s) (rs s) (ps s) (bound s) (incl s) (strat s) (worker s) (rep s) v (trace s) (outs s) (ntfs s) (obs s) (flag s).
-Definition set_trace (v : list (ev * Z)) (s : sim) : sim := mkSim (clock s) (pend s) (nid s) (rs s) (ps s) (bound s) (incl s) (strat s) (worker s) (rep s) (created s) v (outs s) (ntfs s) (obs s) (flag s).
-Definition set_outs (v : list outcome) (s : sim) : sim := mkSim (clock s) (pend s) (nid s) (rs s) (ps s) (bound s) (incl s) (strat s) (worker s) (rep s) (created s) (trace s) v (ntfs s) (obs s) (flag s).
-Definition set_ntfs (v : list ntf) (s : sim) : sim := mkSim (clock s) (pend s) (nid s) (rs s) (ps s) (bound s) (incl s) (strat s) (worker s) (rep s) (created s) (trace s) (outs s) v (obs s) (flag s).
-Definition set_obs (v : list obsrec) (s : sim) : sim := mkSim (clock s) (pend s) (nid s) (rs s) (ps s) (bound s) (incl s) (strat s) (worker s) (rep s) (created s) (trace s) (outs s) (ntfs s) v (flag s).
-Definition set_flag (v : bool) (s : sim) : sim := mkSim (clock s) (pend s) (nid s) (rs s) (ps s) (bound s) (incl s) (strat s) (worker s) (rep s) (created s) (trace s) (outs s) (ntfs s) (obs s) v.
+Definition set_clock (v : Z) (s : sim) : sim := mkSim v (pend s) (nid s) (rs s) (ps s) (bound s) (incl s) (strat s) (worker s) (rep s) (created s) (cancelled s) (trace s) (outs s) (ntfs s) (obs s) (flag s).
+Definition set_pend (v : list ev) (s : sim) : sim := mkSim (clock s) v (nid s) (rs s) (ps s) (bound s) (incl s) (strat s) (worker s) (rep s) (created s) (cancelled s) (trace s) (outs s) (ntfs s) (obs s) (flag s).
+Definition set_nid (v : Z) (s : sim) : sim := mkSim (clock s) (pend s) v (rs s) (ps s) (bound s) (incl s) (strat s) (worker s) (rep s) (created s) (cancelled s) (trace s) (outs s) (ntfs s) (obs s) (flag s).
+Definition set_rs (v : runst) (s : sim) : sim := mkSim (clock s) (pend s) (nid s) v (ps s) (bound s) (incl s) (strat s) (worker s) (rep s) (created s) (cancelled s) (trace s) (outs s) (ntfs s) (obs s) (flag s).
+Definition set_ps (v : replst) (s : sim) : sim := mkSim (clock s) (pend s) (nid s) (rs s) v (bound s) (incl s) (strat s) (worker s) (rep s) (created s) (cancelled s) (trace s) (outs s) (ntfs s) (obs s) (flag s).
+Definition set_bound (v : Z) (s : sim) : sim := mkSim (clock s) (pend s) (nid s) (rs s) (ps s) v (incl s) (strat s) (worker s) (rep s) (created s) (cancelled s) (trace s) (outs s) (ntfs s) (obs s) (flag s).
+Definition set_incl (v : bool) (s : sim) : sim := mkSim (clock s) (pend s) (nid s) (rs s) (ps s) (bound s) v (strat s) (worker s) (rep s) (created s) (cancelled s) (trace s) (outs s) (ntfs s) (obs s) (flag s).
+Definition set_strat (v : strategy) (s : sim) : sim := mkSim (clock s) (pend s) (nid s) (rs s) (ps s) (bound s) (incl s) v (worker s) (rep s) (created s) (cancelled s) (trace s) (outs s) (ntfs s) (obs s) (flag s).
+Definition set_worker (v : wstate) (s : sim) : sim := mkSim (clock s) (pend s) (nid s) (rs s) (ps s) (bound s) (incl s) (strat s) v (rep s) (created s) (cancelled s) (trace s) (outs s) (ntfs s) (obs s) (flag s).
+Definition set_rep (v : option repl) (s : sim) : sim := mkSim (clock s) (pend s) (nid s) (rs s) (ps s) (bound s) (incl s) (strat s) (worker s) v (created s) (cancelled s) (trace s) (outs s) (ntfs s) (obs s) (flag s).
+Definition set_created (v : list ev) (s : sim) : sim := mkSim (clock s) (pend s) (nid s) (rs s) (ps s) (bound s) (incl s) (strat s) (worker s) (rep s) v (cancelled s) (trace s) (outs s) (ntfs s) (obs s) (flag s).
+Definition set_cancelled (v : list ev) (s : sim) : sim := mkSim (clock s) (pend s) (nid s) (rs s) (ps s) (bound s) (incl s) (strat s) (worker s) (rep s) (created s) v (trace s) (outs s) (ntfs s) (obs s) (flag s).
+Definition set_trace (v : list (ev * Z)) (s : sim) : sim := mkSim (clock s) (pend s) (nid s) (rs s) (ps s) (bound s) (incl s) (strat s) (worker s) (rep s) (created s) (cancelled s) v (outs s) (ntfs s) (obs s) (flag s).
+Definition set_outs (v : list outcome) (s : sim) : sim := mkSim (clock s) (pend s) (nid s) (rs s) (ps s) (bound s) (incl s) (strat s) (worker s) (rep s) (created s) (cancelled s) (trace s) v (ntfs s) (obs s) (flag s).
+Definition set_ntfs (v : list ntf) (s : sim) : sim := mkSim (clock s) (pend s) (nid s) (rs s) (ps s) (bound s) (incl s) (strat s) (worker s) (rep s) (created s) (cancelled s) (trace s) (outs s) v (obs s) (flag s).
+Definition set_obs (v : list obsrec) (s : sim) : sim := mkSim (clock s) (pend s) (nid s) (rs s) (ps s) (bound s) (incl s) (strat s) (worker s) (rep s) (created s) (cancelled s) (trace s) (outs s) (ntfs s) v (flag s).
+Definition set_flag (v : bool) (s : sim) : sim := mkSim (clock s) (pend s) (nid s) (rs s) (ps s) (bound s) (incl s) (strat s) (worker s) (rep s) (created s) (cancelled s) (trace s) (outs s) (ntfs s) (obs s) v.
 
 (* logs are kept newest-first *)
 Definition emit (n : ntf) (s : sim) : sim := set_ntfs (n :: ntfs s) s.
@@ -107,7 +109,7 @@ Definition out (o : outcome) (s : sim) : sim := set_outs (o :: outs s) s.
 Definition raise_flag (s : sim) : sim := set_flag true s.
 
 Definition init_sim (st : strategy) : sim :=
-  mkSim 0 [] 0 RNotInit PNotInit 0 true st WNone None [] [] [] [] [] false.
+  mkSim 0 [] 0 RNotInit PNotInit 0 true st WNone None [] [] [] [] [] [] false.
 
 Definition running (s : sim) : bool :=
   match rs s with RStarting | RStarted => true | _ => false end.
@@ -136,9 +138,16 @@ Definition do_sched (s : sim) (m : smode) (prio : Z) (h : nat) : sim :=
   | Some t => out OAccepted (add_event t prio (HUser h) s)
   end.
 
+(* cancel_event = EventListHeap.remove: "if contains: remove".  Membership and
+   removal go by key equality (SimEvent.__eq__).  [cancelled] logs the events
+   that were actually taken out of the pending set. *)
+Definition ev_mem (e : ev) (l : list ev) : bool := existsb (ev_eqb e) l.
+
 Definition do_cancel (s : sim) (k : nat) : sim :=
   match nth_error (created s) k with
-  | Some e => set_pend (rem e (pend s)) s
+  | Some e => if ev_mem e (pend s)
+              then set_cancelled (e :: cancelled s) (set_pend (rem e (pend s)) s)
+              else s
   | None => s
   end.
 
@@ -195,6 +204,18 @@ Definition stop_at_bound (s : sim) : sim :=
 Definition beyond (s : sim) (e : ev) : bool :=
   (ev_time e >? bound s) || ((ev_time e =? bound s) && negb (incl s)).
 
+(* one pass of the loop body: pop the first event e (rest r), TIME_CHANGED only
+   if the time differs, clock := event time, execute, react to a failure *)
+Definition take_event (p : program) (s : sim) (e : ev) (r : list ev) : sim :=
+  let s0 := set_pend r s in
+  let s1 := if ev_time e =? clock s0 then s0 else emit (NTime (ev_time e)) s0 in
+  let s2 := set_clock (ev_time e) s1 in
+  let '(s3, failed) := exec_event InRun p s2 e in
+  match failed, strat s3 with
+  | true, SWarnPause => set_rs RStopping s3
+  | _, _ => s3
+  end.
+
 Fixpoint run_loop (fuel : nat) (p : program) (s : sim) : sim :=
   match fuel with
   | O => if running s then raise_flag s else s
@@ -204,16 +225,7 @@ Fixpoint run_loop (fuel : nat) (p : program) (s : sim) : sim :=
         | [] => stop_at_bound s
         | e :: r =>
             if beyond s e then stop_at_bound s
-            else
-              let s0 := set_pend r s in
-              let s1 := if ev_time e =? clock s0 then s0 else emit (NTime (ev_time e)) s0 in
-              let s2 := set_clock (ev_time e) s1 in
-              let '(s3, failed) := exec_event InRun p s2 e in
-              let s4 := match failed, strat s3 with
-                        | true, SWarnPause => set_rs RStopping s3
-                        | _, _ => s3
-                        end in
-              run_loop f p s4
+            else run_loop f p (take_event p s e r)
         end
       else s
   end.
@@ -277,6 +289,13 @@ Definition step_checks (s : sim) : bool :=
   && match ps s with PInit | PStarted => true | _ => false end
   && (clock s <? end_time s).
 
+(* _step_impl on the first event e (rest r): TIME_CHANGED always; a failing
+   handler is caught by step() itself *)
+Definition step_event (p : program) (s : sim) (e : ev) (r : list ev) : sim :=
+  let a := emit (NTime (ev_time e)) (set_pend r s) in
+  let b := set_clock (ev_time e) a in
+  fst (exec_event InStep p b e).
+
 Definition do_step (p : program) (s : sim) : sim * cres :=
   if step_checks s then
     let s1 := match ps s with
@@ -289,10 +308,7 @@ Definition do_step (p : program) (s : sim) : sim * cres :=
       | [] => s2
       | e :: r =>
           if ev_time e >? end_time s2 then s2
-          else
-            let a := emit (NTime (ev_time e)) (set_pend r s2) in
-            let b := set_clock (ev_time e) a in
-            fst (exec_event InStep p b e)
+          else step_event p s2 e r
       end in
     (set_rs RStopped (emit (NStop (clock s3)) s3), ResOk)
   else (s, ResRefused).
